@@ -3,11 +3,11 @@
    two scheduling points:
 
      Produce:  [W0] empty_.wait()   [L0] lock produce_at_mutex_
-               [ywrite] *produce_at_ = val; if (++produce_at_ == end_) produce_at_ = storage_
-               [U0] unlock          [P1] used_.post()
+               [ywrite] *produce_at_ = val; if (++produce_at_ == end_) produce_at_ = storage_; unlock (scope end)
+               [U0] scheduling point right after the unlock          [P1] used_.post()
      Consume:  [W1] used_.wait()    [L1] lock consume_at_mutex_
-               [yread] out = *consume_at_; if (++consume_at_ == end_) consume_at_ = storage_
-               [U1] unlock          [P0] empty_.post()                                         *)
+               [yread] out = *consume_at_; if (++consume_at_ == end_) consume_at_ = storage_; unlock (scope end)
+               [U1] scheduling point right after the unlock          [P0] empty_.post()                *)
 From PP Require Export Base.LTS.
 From Coq Require Export ZArith.
 
@@ -26,7 +26,11 @@ Record qstate := mkQ {
   q_cat : nat;              (* consume_at_ - storage_ *)
   q_pmx : bool;             (* produce_at_mutex_ held *)
   q_cmx : bool;             (* consume_at_mutex_ held *)
-  q_threads : list qthread }.
+  q_threads : list qthread;
+  (* auxiliary (history) variables: never read by a step, only used to state invariants *)
+  q_wlog : list Z;          (* every value stored into a slot, in order *)
+  q_rlog : list Z;          (* every value copied out of a slot, in order *)
+  q_wtlog : list (nat * Z) }.  (* (storing thread, value) of every store, in order *)
 
 Fixpoint list_upd {A} (l : list A) (i : nat) (x : A) : list A :=
   match l, i with
@@ -38,7 +42,7 @@ Fixpoint list_upd {A} (l : list A) (i : nat) (x : A) : list A :=
 Definition q_default : Z := (-1)%Z.   (* T() of the harness item type *)
 
 Definition pcq_init (empty0 used0 : nat) (threads : list qthread) : qstate :=
-  mkQ empty0 used0 (fun _ => q_default) 0 0 false false threads.
+  mkQ empty0 used0 (fun _ => q_default) 0 0 false false threads [] [] [].
 
 Section Pcq.
   Variable n : nat.   (* capacity *)
@@ -59,21 +63,21 @@ Section Pcq.
           match q_empty s with
           | 0 => None
           | S e => Some (mkQ e (q_used s) (q_slots s) (q_pat s) (q_cat s) (q_pmx s) (q_cmx s)
-                             (q_set_thread s i (QProd QPLock todo)))
+                             (q_set_thread s i (QProd QPLock todo)) (q_wlog s) (q_rlog s) (q_wtlog s))
           end
         | QPLock =>
           if q_pmx s then None
           else Some (mkQ (q_empty s) (q_used s) (q_slots s) (q_pat s) (q_cat s) true (q_cmx s)
-                         (q_set_thread s i (QProd QPWrite todo)))
+                         (q_set_thread s i (QProd QPWrite todo)) (q_wlog s) (q_rlog s) (q_wtlog s))
         | QPWrite =>
-          Some (mkQ (q_empty s) (q_used s) (upd (q_slots s) (q_pat s) v) (q_next (q_pat s)) (q_cat s) (q_pmx s) (q_cmx s)
-                    (q_set_thread s i (QProd QPUnlock todo)))
+          Some (mkQ (q_empty s) (q_used s) (upd (q_slots s) (q_pat s) v) (q_next (q_pat s)) (q_cat s) false (q_cmx s)
+                    (q_set_thread s i (QProd QPUnlock todo)) (q_wlog s ++ [v]) (q_rlog s) (q_wtlog s ++ [(i, v)]))
         | QPUnlock =>
-          Some (mkQ (q_empty s) (q_used s) (q_slots s) (q_pat s) (q_cat s) false (q_cmx s)
-                    (q_set_thread s i (QProd QPPost todo)))
+          Some (mkQ (q_empty s) (q_used s) (q_slots s) (q_pat s) (q_cat s) (q_pmx s) (q_cmx s)
+                    (q_set_thread s i (QProd QPPost todo)) (q_wlog s) (q_rlog s) (q_wtlog s))
         | QPPost =>
           Some (mkQ (q_empty s) (S (q_used s)) (q_slots s) (q_pat s) (q_cat s) (q_pmx s) (q_cmx s)
-                    (q_set_thread s i (QProd QPWait rest)))
+                    (q_set_thread s i (QProd QPWait rest)) (q_wlog s) (q_rlog s) (q_wtlog s))
         end
       end
     | Some (QCons pc want got) =>
@@ -85,21 +89,21 @@ Section Pcq.
           match q_used s with
           | 0 => None
           | S u => Some (mkQ (q_empty s) u (q_slots s) (q_pat s) (q_cat s) (q_pmx s) (q_cmx s)
-                             (q_set_thread s i (QCons QCLock want got)))
+                             (q_set_thread s i (QCons QCLock want got)) (q_wlog s) (q_rlog s) (q_wtlog s))
           end
         | QCLock =>
           if q_cmx s then None
           else Some (mkQ (q_empty s) (q_used s) (q_slots s) (q_pat s) (q_cat s) (q_pmx s) true
-                         (q_set_thread s i (QCons QCRead want got)))
+                         (q_set_thread s i (QCons QCRead want got)) (q_wlog s) (q_rlog s) (q_wtlog s))
         | QCRead =>
-          Some (mkQ (q_empty s) (q_used s) (q_slots s) (q_pat s) (q_next (q_cat s)) (q_pmx s) (q_cmx s)
-                    (q_set_thread s i (QCons QCUnlock want (q_slots s (q_cat s) :: got))))
+          Some (mkQ (q_empty s) (q_used s) (q_slots s) (q_pat s) (q_next (q_cat s)) (q_pmx s) false
+                    (q_set_thread s i (QCons QCUnlock want (q_slots s (q_cat s) :: got))) (q_wlog s) (q_rlog s ++ [q_slots s (q_cat s)]) (q_wtlog s))
         | QCUnlock =>
-          Some (mkQ (q_empty s) (q_used s) (q_slots s) (q_pat s) (q_cat s) (q_pmx s) false
-                    (q_set_thread s i (QCons QCPost want got)))
+          Some (mkQ (q_empty s) (q_used s) (q_slots s) (q_pat s) (q_cat s) (q_pmx s) (q_cmx s)
+                    (q_set_thread s i (QCons QCPost want got)) (q_wlog s) (q_rlog s) (q_wtlog s))
         | QCPost =>
           Some (mkQ (S (q_empty s)) (q_used s) (q_slots s) (q_pat s) (q_cat s) (q_pmx s) (q_cmx s)
-                    (q_set_thread s i (QCons QCWait w got)))
+                    (q_set_thread s i (QCons QCWait w got)) (q_wlog s) (q_rlog s) (q_wtlog s))
         end
       end
     end.
